@@ -41,6 +41,8 @@ type Case struct {
 	Overlapped int `json:"overlapped_sites,omitempty"`
 	// NoExclusion: judge the case even if a carrier's rotation is in the class of the known finding (used by its witness)
 	NoExclusion bool `json:"no_exclusion,omitempty"`
+	// noRecycle: set on the variants check derives from a case (fresh strings, one base exchanged), which derive none
+	noRecycle bool
 }
 
 func canonSet(parts []clone.Part) (set []string, dup string) {
@@ -221,7 +223,70 @@ func check(c Case) error {
 			}
 		}
 	}
+	// the same reaction with every part a fresh string of the same length and one base in its middle exchanged (another
+	// plasmid of the same size), three times over, each pool dropped and collected before the next is built
+	if c.Kind == "goldengate" && !c.noRecycle {
+		for round := 0; round < 3; round++ {
+			v := c
+			v.noRecycle, v.Procs, v.Reps = true, []int{1}, 1
+			v.Parts = make([]PartSpec, len(c.Parts))
+			for i, p := range c.Parts {
+				v.Parts[i] = PartSpec{Seq: exchangedFarFromSites(p.Seq, refclone.BuiltIn[c.Enzyme].Site, round), Circular: p.Circular}
+			}
+			if err := check(v); err != nil {
+				return fmt.Errorf("on a pool of fresh strings of the same lengths with one base of each part exchanged (round %d, after the earlier pools were dropped and collected): %v", round, err)
+			}
+			v = Case{}
+			runtime.GC()
+		}
+	}
 	return nil
+}
+
+// exchangedFarFromSites returns a fresh copy of seq in which one base that lies at least 17 bases away from every
+// occurrence of the recognition site (either strand, read around the origin too) is exchanged for another - a change to
+// the body of an insert or a backbone, which leaves the design of the reaction (its sites and overhangs) as it is. If
+// there is no such base, or the exchange would spell a new site, the copy is unchanged.
+func exchangedFarFromSites(seq, site string, round int) string {
+	n := len(seq)
+	b := []byte(seq)
+	if n == 0 || site == "" {
+		return string(b)
+	}
+	up := strings.ToUpper(seq)
+	count := func(s string) int {
+		d := s + s[:min(len(s), len(site)-1)]
+		return strings.Count(d, site) + strings.Count(d, ref.RevComp(site))
+	}
+	near := make([]bool, n)
+	d := up + up[:min(n, len(site)-1)]
+	for _, pat := range []string{site, ref.RevComp(site)} {
+		for from := 0; ; {
+			k := strings.Index(d[from:], pat)
+			if k < 0 {
+				break
+			}
+			at := from + k
+			for j := at - 17; j < at+len(site)+17; j++ {
+				near[((j%n)+n)%n] = true
+			}
+			from = at + 1
+		}
+	}
+	for k := 0; k < n; k++ {
+		at := (n/2 + 7*round + k) % n
+		x := strings.IndexByte("ACGTacgt", b[at])
+		if near[at] || x < 0 {
+			continue
+		}
+		old := b[at]
+		b[at] = "CATGcatg"[x]
+		if count(strings.ToUpper(string(b))) == count(up) {
+			return string(b)
+		}
+		b[at] = old
+	}
+	return string(b)
 }
 
 // checkTermination: the simulation returns for pools whose overhangs close a cycle that
